@@ -565,7 +565,7 @@ def public(c):
 
 def histories(ctx):
     r = ctx.rng("histories")
-    n = int((1000 if ctx.quick else 15000) * SCALE)
+    n = int((1000 if ctx.quick else 8000) * SCALE)
     cases = [gen_history_case(r, i, ctx.quick) for i in range(n)] + fixed_history_cases()
     res = run_node(ctx, cases)
     check_nts(ctx, res)
